@@ -1,22 +1,21 @@
-"""Source facts for M5 (`PyTree.lean` / `TaskArgs.lean`, C07), read with `ast` from the tree under check.
+"""Source facts for M5 (`PyTree.lean` / `TaskArgs.lean`, C07), read from the *live* `_pytask` of the tree under check.
 
-Emits data only (DESIGN §2.4); fail-closed: anything unrecognised raises ExtractError.
+Emits data only (DESIGN §2.4). Every fact is established by behavioural probes of the real functions, so a refactoring that keeps
+their input/output behaviour keeps the facts, while changing `none_is_leaf`, the strictness of the prefix test, the `name in
+parameters` guard or the way `@task(produces=…)` enters the products dict changes the generated Lean terms. Fail-closed: a probe
+that cannot run or answers something the model has no term for raises ExtractError.
 
-* `treeNoneIsLeaf`        — every optree wrapper in `tree_util.py` is `functools.partial(<optree fn>, none_is_leaf=<const>, namespace="pytask")`
-                            with the same constant;
-* `returnPrefixStrict`    — the `strict=` constant of the single `.is_prefix(...)` call in `execute.pytask_execute_task`;
-* `productsNeedParameter` — the loop over `task.produces.items()` in `pytask_execute_task` guards the load with `if name in parameters`;
-* `dependsBeforeProduces` — the loop over `task.depends_on` precedes the loop over `task.produces` (later assignment wins on a name clash);
-* `taskProducesReplaces`  — in `collect_utils.parse_products_from_task_function`, under `if task_produces:`, the products dict is
-                            re-bound (`out = {"return": …}`, true) or extended (`out["return"] = …`, false).
+* `treeNoneIsLeaf`        — every optree wrapper of `tree_util.py` treats `None` as a leaf (all five must agree);
+* `returnPrefixStrict`    — `pytask_execute_task` rejects a returned value whose structure *equals* the declared one;
+* `productsNeedParameter` — `pytask_execute_task` passes a product as keyword argument only if the function has that parameter;
+* `taskProducesReplaces`  — with `@task(produces=…)`, `parse_products_from_task_function` drops the products parsed from parameters.
 
 Hook into `extract.py` with:   from extract_pytree import pytree_facts; EXTRA_SECTIONS.append(pytree_facts)
 """
 from __future__ import annotations
 
-import ast
-
-WRAPPERS = ["tree_leaves", "tree_map", "tree_map_with_path", "tree_structure", "tree_flatten_with_path"]
+import sys
+from pathlib import Path
 
 
 def _err(msg: str):
@@ -24,93 +23,114 @@ def _err(msg: str):
     return extract.ExtractError("pytree facts: " + msg)
 
 
-def _const(node, what):
-    if isinstance(node, ast.Constant) and isinstance(node.value, bool):
-        return node.value
-    raise _err(f"{what} is not a boolean literal")
+def _none_is_leaf(tu) -> bool:
+    probes = {}
+    try:
+        probes["tree_leaves"] = tu.tree_leaves([None, 1]) == [None, 1]
+        probes["tree_map"] = tu.tree_map(lambda _x: 0, [None, 1]) == [0, 0]
+        probes["tree_map_with_path"] = tu.tree_map_with_path(lambda _p, _x: 0, [None, 1]) == [0, 0]
+        probes["tree_structure"] = tu.tree_structure([None, 1]).num_leaves == 2
+        probes["tree_flatten_with_path"] = list(tu.tree_flatten_with_path([None, 1])[1]) == [None, 1]
+    except Exception as e:  # noqa: BLE001
+        raise _err(f"optree wrapper probe failed: {type(e).__name__}: {e}") from None
+    if len(set(probes.values())) != 1:
+        raise _err(f"the optree wrappers disagree on whether None is a leaf: {probes}")
+    return next(iter(probes.values()))
 
 
-def _none_is_leaf(mod: ast.Module) -> bool:
-    found = {}
-    for st in mod.body:
-        if isinstance(st, ast.Assign) and len(st.targets) == 1 and isinstance(st.targets[0], ast.Name) and st.targets[0].id in WRAPPERS:
-            call = st.value
-            if not (isinstance(call, ast.Call) and isinstance(call.func, ast.Attribute) and call.func.attr == "partial"):
-                raise _err(f"{st.targets[0].id} is not a functools.partial")
-            kws = {k.arg: k.value for k in call.keywords}
-            if "none_is_leaf" not in kws:
-                raise _err(f"{st.targets[0].id}: no none_is_leaf keyword")
-            found[st.targets[0].id] = _const(kws["none_is_leaf"], "none_is_leaf")
-    missing = [w for w in WRAPPERS if w not in found]
-    if missing:
-        raise _err(f"wrappers not found in tree_util.py: {missing}")
-    if len(set(found.values())) != 1:
-        raise _err(f"optree wrappers disagree on none_is_leaf: {found}")
-    return next(iter(found.values()))
+def _execute_probes():
+    from _pytask.execute import pytask_execute_task
+    from _pytask.nodes import PythonNode, TaskWithoutPath
+    from _pytask.session import Session
+
+    session = Session(config={"dry_run": False}, hook=None)
+
+    # (1) a returned value with exactly the declared structure
+    node = PythonNode(name="verif_r")
+    task = TaskWithoutPath(name="verif_t", function=lambda: 5, produces={"return": node})
+    try:
+        pytask_execute_task(session=session, task=task)
+        strict = False
+        if node.value != 5:
+            raise _err("return value was not saved in the declared node")
+    except ValueError:
+        strict = True
+    except Exception as e:  # noqa: BLE001
+        raise _err(f"probe of the return handling failed: {type(e).__name__}: {e}") from None
+
+    # (2) a product the function has no parameter for
+    seen = {}
+
+    def body():
+        seen["called"] = True
+
+    task = TaskWithoutPath(name="verif_t2", function=body, produces={"extra": PythonNode(name="verif_x", value=1)})
+    try:
+        pytask_execute_task(session=session, task=task)
+        guarded = True
+    except TypeError:
+        guarded = False
+    except Exception as e:  # noqa: BLE001
+        raise _err(f"probe of the products loop failed: {type(e).__name__}: {e}") from None
+    if guarded and not seen.get("called"):
+        raise _err("probe of the products loop: body not called")
+    return strict, guarded
 
 
-def _mentions(node, attr: str) -> bool:
-    return any(isinstance(n, ast.Attribute) and n.attr == attr for n in ast.walk(node))
+def _task_produces_replaces() -> bool:
+    from typing import Annotated
 
+    from _pytask.collect_utils import parse_products_from_task_function
+    from _pytask.nodes import PythonNode
+    from _pytask.pluginmanager import get_plugin_manager
+    from _pytask.session import Session
+    from _pytask.task_utils import task as task_deco
+    from _pytask.typing import Product
 
-def _execute_facts(fn: ast.FunctionDef):
-    strict = None
-    for n in ast.walk(fn):
-        if isinstance(n, ast.Call) and isinstance(n.func, ast.Attribute) and n.func.attr == "is_prefix":
-            if strict is not None:
-                raise _err("more than one is_prefix call in pytask_execute_task")
-            kws = {k.arg: k.value for k in n.keywords}
-            strict = _const(kws["strict"], "strict") if "strict" in kws else False
-    if strict is None:
-        raise _err("no is_prefix call in pytask_execute_task")
-    loops = [st for st in fn.body if isinstance(st, ast.For) and (_mentions(st.iter, "depends_on") or _mentions(st.iter, "produces"))]
-    if len(loops) != 2 or _mentions(loops[0].iter, "depends_on") == _mentions(loops[1].iter, "depends_on"):
-        raise _err("expected exactly one kwargs loop over task.depends_on and one over task.produces")
-    deps_first = _mentions(loops[0].iter, "depends_on")
-    prod_loop = loops[1] if deps_first else loops[0]
-    guarded = False
-    if len(prod_loop.body) == 1 and isinstance(prod_loop.body[0], ast.If):
-        t = prod_loop.body[0].test
-        if (isinstance(t, ast.Compare) and len(t.ops) == 1 and isinstance(t.ops[0], ast.In)
-                and isinstance(t.comparators[0], ast.Name) and t.comparators[0].id == "parameters"):
-            guarded = True
-        else:
-            raise _err("unrecognised guard in the produces loop of pytask_execute_task")
-    elif any(isinstance(s, ast.If) for s in prod_loop.body):
-        raise _err("unrecognised shape of the produces loop of pytask_execute_task")
-    return strict, guarded, deps_first
+    try:
+        pm = get_plugin_manager()
+        from _pytask import collect as _collect
+        if not pm.is_registered(_collect):
+            pm.register(_collect)
+        session = Session(config={"paths": (), "root": Path.cwd(), "check_casing_of_paths": False}, hook=pm.hook)
 
+        def f(p):  # noqa: ARG001
+            return 1
 
-def _task_produces_replaces(fn: ast.FunctionDef) -> bool:
-    for st in fn.body:
-        if isinstance(st, ast.If) and isinstance(st.test, ast.Name) and st.test.id == "task_produces":
-            for s in st.body:
-                if isinstance(s, ast.Assign) and len(s.targets) == 1:
-                    t = s.targets[0]
-                    if isinstance(t, ast.Name) and t.id == "out" and isinstance(s.value, ast.Dict):
-                        return True
-                    if (isinstance(t, ast.Subscript) and isinstance(t.value, ast.Name) and t.value.id == "out"
-                            and isinstance(t.slice, ast.Constant) and t.slice.value == "return"):
-                        return False
-            raise _err("no assignment to the products dict under `if task_produces:`")
-    raise _err("`if task_produces:` not found in parse_products_from_task_function")
+        f.__annotations__ = {"p": Annotated[object, PythonNode(name="verif_p"), Product]}
+
+        g = task_deco(produces=PythonNode(name="verif_ret"))(f)
+        out = parse_products_from_task_function(session, None, "verif_t", Path.cwd(), g)
+    except Exception as e:  # noqa: BLE001
+        raise _err(f"probe of parse_products_from_task_function failed: {type(e).__name__}: {e}") from None
+    if set(out) == {"return"}:
+        return True
+    if set(out) == {"return", "p"}:
+        return False
+    raise _err(f"unexpected products for @task(produces=…) plus a Product parameter: {sorted(out)}")
 
 
 def pytree_facts() -> list[str]:
     import extract
-    nil = _none_is_leaf(extract._parse("tree_util.py"))
-    strict, guarded, deps_first = _execute_facts(extract._func(extract._parse("execute.py"), "pytask_execute_task"))
-    repl = _task_produces_replaces(extract._func(extract._parse("collect_utils.py"), "parse_products_from_task_function"))
+    sys.path.insert(0, str(extract.REPO / "src"))
+    try:
+        import _pytask
+        from _pytask import tree_util as tu
+    except Exception as e:  # pragma: no cover
+        raise _err(f"cannot import _pytask: {type(e).__name__}: {e}") from None
+    if not str(Path(_pytask.__file__).resolve()).startswith(str((extract.REPO / "src").resolve())):
+        raise _err(f"_pytask imported from {_pytask.__file__}, not from the tree under check")
+    nil = _none_is_leaf(tu)
+    strict, guarded = _execute_probes()
+    repl = _task_produces_replaces()
     b = extract.lean_bool
     return [
-        "/-- `none_is_leaf` passed by every optree wrapper of `tree_util.py`. -/",
+        "/-- every optree wrapper of `tree_util.py` treats `None` as a leaf (`none_is_leaf=True`). -/",
         f"def treeNoneIsLeaf : Bool := {b(nil)}",
-        "/-- `strict=` of `structure_return.is_prefix(structure_out, …)` in `pytask_execute_task`. -/",
+        "/-- `pytask_execute_task` rejects a returned value whose structure equals the declared one (`is_prefix(…, strict=True)`). -/",
         f"def returnPrefixStrict : Bool := {b(strict)}",
-        "/-- products are loaded into kwargs only `if name in parameters`. -/",
+        "/-- products are passed as keyword arguments only `if name in parameters`. -/",
         f"def productsNeedParameter : Bool := {b(guarded)}",
-        "/-- kwargs are filled from `depends_on` first, then from `produces`. -/",
-        f"def dependsBeforeProduces : Bool := {b(deps_first)}",
         "/-- `@task(produces=…)` re-binds the whole products dict (`out = {\"return\": …}`) instead of adding a key. -/",
         f"def taskProducesReplaces : Bool := {b(repl)}",
         "",
